@@ -1,10 +1,1179 @@
-// Package c12 holds the runtime monitors for property C12 (see DESIGN.md section 4).
+// Package c12 monitors property C12: mutex blocks of one name are mutually
+// exclusive, re-entrant and always released (DESIGN.md section 4, C12).
+//
+// Generated ECAL programs call Go functions registered through
+// stdlib.AddStdlibFunc: v.attempt(name) before a block, v.enter(name) as the
+// first statement inside it, v.exit(name) in a `finally` around the block
+// body, v.inc(counter, value) after every `c := c + 1`, v.mark(kind) before an
+// abrupt exit. The functions maintain an occupancy table (owner thread id and
+// depth per name) written from the property statement; nothing of /repo's
+// mutex bookkeeping is consulted.
 package c12
 
-import "verif/harness/core"
+import (
+	"fmt"
+	"runtime"
+	"sort"
+	"strings"
+	"sync"
+	"sync/atomic"
+	"time"
+
+	"github.com/krotik/ecal/engine"
+	"github.com/krotik/ecal/parser"
+	"github.com/krotik/ecal/scope"
+	"github.com/krotik/ecal/stdlib"
+	"github.com/krotik/ecal/util"
+
+	"verif/harness/c11kit"
+	"verif/harness/core"
+	"verif/harness/sched"
+)
 
 func init() { core.Register("C12", Run) }
 
+var allNames = []string{"m1", "m2", "m3"}
+
+func counterOf(name string) string { return "c" + name[1:] }
+func rank(name string) int         { return int(name[1] - '0') }
+
+// ---------------------------------------------------------------- monitor
+
+type nameState struct {
+	owner    uint64
+	depth    int
+	tainted  bool
+	lastExit string // exit kind announced by the thread that last left the name completely
+	abrupt   string // kind of the last complete exit that was not a normal end
+	enters   int64
+}
+
+type finding struct{ key, text string }
+
+type mon struct {
+	mu         sync.Mutex
+	names      map[string]*nameState
+	counters   map[string]int64
+	attempting map[uint64]string
+	lastMark   map[uint64]string
+	findings   []finding
+	seenKey    map[string]bool
+	overlap    map[string]bool // "m1|m2": two different names held by different threads at once
+	stats      map[string]int64
+	progress   int64 // atomic: every monitor call
+	noiseSeed  uint64
+	oneCalls   uint64
+}
+
+func newMon(seed uint64) *mon {
+	m := &mon{names: map[string]*nameState{}, counters: map[string]int64{}, attempting: map[uint64]string{},
+		lastMark: map[uint64]string{}, seenKey: map[string]bool{}, overlap: map[string]bool{}, stats: map[string]int64{}, noiseSeed: seed}
+	for _, n := range allNames {
+		m.names[n] = &nameState{lastExit: "none"}
+	}
+	return m
+}
+
+func (m *mon) flag(key, text string) {
+	if !m.seenKey[key] {
+		m.seenKey[key] = true
+		m.findings = append(m.findings, finding{key, text})
+	}
+}
+
+var cur atomic.Pointer[mon]
+
+type vFunc struct{ name string }
+
+func (f vFunc) DocString() (string, error) { return "C12 monitor function " + f.name, nil }
+
+func (f vFunc) Run(_ string, _ parser.Scope, _ map[string]interface{}, tid uint64, args []interface{}) (interface{}, error) {
+	m := cur.Load()
+	if m == nil {
+		return nil, nil
+	}
+	atomic.AddInt64(&m.progress, 1)
+	str := func(i int) string {
+		if i < len(args) {
+			return fmt.Sprint(args[i])
+		}
+		return ""
+	}
+	switch f.name {
+	case "attempt":
+		m.attempt(tid, str(0))
+	case "enter":
+		m.enter(tid, str(0))
+	case "exit":
+		m.exit(tid, str(0))
+	case "inc":
+		var v float64
+		if len(args) > 1 {
+			v, _ = args[1].(float64)
+		}
+		m.inc(tid, str(0), v)
+	case "mark":
+		m.mu.Lock()
+		k := str(0)
+		m.stats["mark."+k]++
+		if k != "caught" {
+			m.lastMark[tid] = k
+		}
+		m.mu.Unlock()
+	case "one":
+		// returns 1 after sometimes giving up the processor: widens the window
+		// between the read and the write of `c := c + v.one()`
+		x := mix(m.noiseSeed ^ atomic.AddUint64(&m.oneCalls, 1)*0x9E3779B97F4A7C15)
+		switch x % 8 {
+		case 0, 1, 2:
+			runtime.Gosched()
+		case 3:
+			time.Sleep(time.Duration(x>>8%40) * time.Microsecond)
+		}
+		return float64(1), nil
+	case "hold":
+		return m.hold(tid, str(0), str(1)), nil
+	case "await":
+		return m.await(str(0)), nil
+	}
+	return nil, nil
+}
+
+func mix(z uint64) uint64 {
+	z = (z ^ (z >> 30)) * 0xBF58476D1CE4E5B9
+	z = (z ^ (z >> 27)) * 0x94D049BB133111EB
+	return z ^ (z >> 31)
+}
+
+var setupOnce sync.Once
+
+func setup() {
+	setupOnce.Do(func() {
+		stdlib.AddStdlibPkg("v", "C12 monitor functions")
+		for _, n := range []string{"attempt", "enter", "exit", "inc", "mark", "one", "hold", "await"} {
+			stdlib.AddStdlibFunc("v", n, vFunc{n})
+		}
+	})
+}
+
+func (m *mon) attempt(tid uint64, name string) {
+	m.mu.Lock()
+	defer m.mu.Unlock()
+	ns := m.names[name]
+	if ns == nil {
+		return
+	}
+	m.attempting[tid] = name
+	delete(m.lastMark, tid)
+	m.stats["attempt"]++
+	if ns.depth > 0 {
+		if ns.owner == tid {
+			m.stats["attempt.reentrant"]++
+		} else {
+			m.stats["attempt.contended(name held by another thread)"]++
+		}
+	}
+}
+
+func (m *mon) enter(tid uint64, name string) {
+	m.mu.Lock()
+	defer m.mu.Unlock()
+	ns := m.names[name]
+	if ns == nil {
+		return
+	}
+	delete(m.attempting, tid)
+	delete(m.lastMark, tid)
+	m.stats["enter"]++
+	ns.enters++
+	if tid == 0 {
+		m.flag("harness:thread-id-0", "a monitor function was called with thread id 0")
+	}
+	if ns.depth > 0 && ns.owner != tid {
+		ns.tainted = true
+		m.flag("exclusion:second-thread-inside", fmt.Sprintf("thread %d entered a `mutex %s` block while thread %d is inside it (depth %d)", tid, name, ns.owner, ns.depth))
+	}
+	if ns.depth > 0 && ns.owner == tid {
+		m.stats["enter.reentrant"]++
+	}
+	ns.owner = tid
+	ns.depth++
+	for _, o := range allNames {
+		if os := m.names[o]; o != name && os.depth > 0 && os.owner != tid {
+			a, b := name, o
+			if a > b {
+				a, b = b, a
+			}
+			if !m.overlap[a+"|"+b] {
+				m.overlap[a+"|"+b] = true
+			}
+			m.stats["overlap.different-names"]++
+		}
+	}
+}
+
+func (m *mon) exit(tid uint64, name string) {
+	m.mu.Lock()
+	defer m.mu.Unlock()
+	ns := m.names[name]
+	if ns == nil {
+		return
+	}
+	m.stats["exit"]++
+	kind := m.lastMark[tid]
+	if kind == "" {
+		kind = "normal"
+	}
+	m.stats["exit."+kind]++
+	if ns.depth == 0 || ns.owner != tid {
+		if !ns.tainted {
+			m.flag("monitor:exit-without-enter", fmt.Sprintf("thread %d left `mutex %s` but the table has owner %d depth %d", tid, name, ns.owner, ns.depth))
+		}
+		return
+	}
+	ns.depth--
+	if ns.depth == 0 {
+		ns.owner = 0
+		ns.lastExit = kind
+		if kind != "normal" {
+			ns.abrupt = kind
+		}
+	}
+}
+
+func (m *mon) inc(tid uint64, counter string, v float64) {
+	m.mu.Lock()
+	defer m.mu.Unlock()
+	m.counters[counter]++
+	m.stats["inc"]++
+	name := "m" + strings.TrimPrefix(counter, "c")
+	if ns := m.names[name]; ns != nil && (ns.depth == 0 || ns.owner != tid) && !ns.tainted {
+		m.flag("monitor:inc-outside-block", fmt.Sprintf("thread %d incremented %s without being inside %s", tid, counter, name))
+	}
+	if int64(v) != m.counters[counter] {
+		m.flag("counter:lost-update", fmt.Sprintf("after increment number %d of %s (inside `mutex %s`) thread %d read back %v", m.counters[counter], counter, name, tid, v))
+		m.counters[counter] = int64(v) // resynchronise: one report per divergence
+	}
+}
+
+// hold is called by a thread inside `mutex mine`; it spins (bounded number of
+// short sleeps) until another thread was seen inside `other`.
+func (m *mon) hold(tid uint64, mine, other string) interface{} {
+	a, b := mine, other
+	if a > b {
+		a, b = b, a
+	}
+	for i := 0; i < 4000; i++ {
+		m.mu.Lock()
+		seen := m.overlap[a+"|"+b]
+		m.mu.Unlock()
+		if seen {
+			return true
+		}
+		time.Sleep(250 * time.Microsecond)
+	}
+	// budget used up: decide on a state witness, not on the time that passed
+	m.mu.Lock()
+	var waiter uint64
+	for t, n := range m.attempting {
+		if n == other {
+			waiter = t
+		}
+	}
+	free := m.names[other].depth == 0
+	m.mu.Unlock()
+	parked := 0
+	for _, g := range c11kit.Dump() {
+		if g.BlockedInEcalMutex() {
+			parked++
+		}
+	}
+	m.mu.Lock()
+	if waiter != 0 && free && parked > 0 {
+		m.flag("independence:blocked-by-other-name", fmt.Sprintf("thread %d announced `mutex %s`, nobody is inside %s, yet it is parked in the mutex acquisition while thread %d holds %s", waiter, other, other, tid, mine))
+	} else {
+		m.stats["independence.undecided"]++
+	}
+	m.mu.Unlock()
+	return false
+}
+
+// await spins (bounded) until some thread has entered name at least once.
+func (m *mon) await(name string) interface{} {
+	for i := 0; i < 8000; i++ {
+		m.mu.Lock()
+		in := m.names[name] != nil && m.names[name].enters > 0
+		m.mu.Unlock()
+		if in {
+			return true
+		}
+		time.Sleep(250 * time.Microsecond)
+	}
+	return false
+}
+
+// ---------------------------------------------------------------- generator
+
+type helper struct {
+	level int      // called inside block number level (1-based) of the unit
+	names []string // 1..2 nested names
+	kind  string   // normal | return | raise
+}
+
+type unit struct {
+	names      []string // block names, outermost first
+	kind       string   // normal | raise | escape | return | break | continue
+	exitLevel  int      // the exit statement sits inside block number exitLevel
+	catchLevel int      // the handler (loop / try) encloses block number catchLevel
+	iters, at  int      // loop count, iteration at which the exit fires
+	noisy      bool     // use v.one() in the increments
+	h          *helper
+}
+
+var exitKinds = []string{"normal", "raise", "escape", "return", "break", "continue"}
+
+// pickName chooses a block name that cannot deadlock the program: a name the
+// thread already holds (re-entrant) or one ranked above everything held.
+func pickName(r *core.Rand, held []string) string {
+	var cand []string
+	maxHeld := 0
+	for _, h := range held {
+		if rank(h) > maxHeld {
+			maxHeld = rank(h)
+		}
+	}
+	for _, n := range allNames {
+		if rank(n) > maxHeld {
+			cand = append(cand, n)
+		}
+	}
+	for _, h := range held {
+		cand = append(cand, h) // re-entrant choices (weighted by multiplicity)
+	}
+	return cand[r.Intn(len(cand))]
+}
+
+func genUnit(r *core.Rand, kind string) *unit {
+	u := &unit{kind: kind, iters: r.Range(1, 3), noisy: r.Bool()}
+	depth := r.Range(1, 3)
+	for i := 0; i < depth; i++ {
+		u.names = append(u.names, pickName(r, u.names))
+	}
+	u.at = r.Range(1, u.iters)
+	u.exitLevel = r.Range(1, depth)
+	u.catchLevel = r.Range(1, u.exitLevel)
+	if kind == "return" || kind == "escape" {
+		u.catchLevel = 1 // the function / thread boundary is outside every block
+	}
+	if kind == "normal" {
+		u.catchLevel = r.Range(1, depth)
+		u.exitLevel = depth
+	}
+	if r.Chance(1, 2) {
+		h := &helper{level: r.Range(1, depth), kind: []string{"normal", "return", "return"}[r.Intn(3)]}
+		held := u.names[:h.level]
+		h.names = []string{pickName(r, held)}
+		if r.Chance(1, 3) {
+			h.names = append(h.names, pickName(r, append(append([]string{}, held...), h.names[0])))
+		}
+		if (kind == "raise" || kind == "escape") && h.level >= u.catchLevel && r.Bool() {
+			h.kind = "raise"
+		}
+		u.h = h
+	}
+	return u
+}
+
+type emitter struct {
+	b      strings.Builder
+	indent int
+}
+
+func (e *emitter) line(format string, a ...interface{}) {
+	e.b.WriteString(strings.Repeat("    ", e.indent))
+	fmt.Fprintf(&e.b, format, a...)
+	e.b.WriteByte('\n')
+}
+
+func (e *emitter) inc(name string, noisy bool) {
+	c := counterOf(name)
+	if noisy {
+		e.line("%s := %s + v.one()", c, c)
+	} else {
+		e.line("%s := %s + 1", c, c)
+	}
+	e.line("v.inc(%q, %s)", c, c)
+}
+
+func (e *emitter) open(name string) {
+	e.line("v.attempt(%q)", name)
+	e.line("mutex %s {", name)
+	e.indent++
+	e.line("v.enter(%q)", name)
+	e.line("try {")
+	e.indent++
+}
+
+func (e *emitter) close(name string) {
+	e.indent--
+	e.line("} finally {")
+	e.indent++
+	e.line("v.exit(%q)", name)
+	e.indent--
+	e.line("}")
+	e.indent--
+	e.line("}")
+}
+
+// emitHelper writes `func <fn>(x) {...}`: enters its names, increments, and
+// leaves by its kind when x is true.
+func emitHelper(e *emitter, fn string, h *helper, noisy bool) {
+	e.line("func %s(x) {", fn)
+	e.indent++
+	for _, n := range h.names {
+		e.open(n)
+		e.inc(n, noisy)
+	}
+	switch h.kind {
+	case "return":
+		e.line("if x {")
+		e.line("    v.mark(\"return\")")
+		e.line("    return 1")
+		e.line("}")
+	case "raise":
+		e.line("if x {")
+		e.line("    v.mark(\"raise\")")
+		e.line("    raise(\"C12X\", \"helper\", [1])")
+		e.line("}")
+	}
+	for i := len(h.names) - 1; i >= 0; i-- {
+		e.inc(h.names[i], false)
+		e.close(h.names[i])
+	}
+	e.line("return 0")
+	e.indent--
+	e.line("}")
+}
+
+// emitUnitBody writes the statements of a unit (usable as a function body or
+// inline in a sink).
+func emitUnitBody(e *emitter, u *unit, helperFn string) {
+	depth := len(u.names)
+	looped := u.kind != "return" && u.kind != "escape" || u.iters > 1
+	openHandler := func() {
+		if looped {
+			e.line("for i in range(1, %d) {", u.iters)
+			e.indent++
+		} else {
+			e.line("i := 1")
+		}
+		if u.kind == "raise" {
+			e.line("try {")
+			e.indent++
+		}
+	}
+	closeHandler := func() {
+		if u.kind == "raise" {
+			e.indent--
+			e.line("} except {")
+			e.line("    v.mark(\"caught\")")
+			e.line("}")
+		}
+		if looped {
+			e.indent--
+			e.line("}")
+		}
+	}
+	helperRaises := u.h != nil && u.h.kind == "raise"
+	for lvl := 1; lvl <= depth; lvl++ {
+		if lvl == u.catchLevel {
+			openHandler()
+		}
+		e.open(u.names[lvl-1])
+		e.inc(u.names[lvl-1], u.noisy)
+		if u.h != nil && u.h.level == lvl {
+			// the helper is called at exactly the level its names were chosen for
+			if lvl >= u.catchLevel {
+				e.line("hr := %s(i == %d)", helperFn, u.at)
+			} else {
+				e.line("hr := %s(false)", helperFn)
+			}
+		}
+	}
+	for lvl := depth; lvl >= 1; lvl-- {
+		if lvl == u.exitLevel && !helperRaises {
+			switch u.kind {
+			case "raise", "escape":
+				e.line("if i == %d {", u.at)
+				e.line("    v.mark(\"raise\")")
+				e.line("    raise(\"C12X\", \"unit\", [%d])", lvl)
+				e.line("}")
+			case "return":
+				e.line("if i == %d {", u.at)
+				e.line("    v.mark(\"return\")")
+				e.line("    return %d", lvl)
+				e.line("}")
+			case "break", "continue":
+				e.line("if i == %d {", u.at)
+				e.line("    v.mark(%q)", u.kind)
+				e.line("    %s", u.kind)
+				e.line("}")
+			}
+		}
+		e.inc(u.names[lvl-1], false)
+		e.close(u.names[lvl-1])
+		if lvl == u.catchLevel {
+			closeHandler()
+		}
+	}
+}
+
+type threadProg struct {
+	calls  []int // unit numbers, in order
+	inline int   // unit number inlined at the end (sink threads only), -1 = none
+	text   string
+	escape bool
+}
+
+type program struct {
+	units   []*unit
+	progs   []*threadProg
+	src     string
+	sinkFor map[int]bool // thread programs that got a sink
+}
+
+func genProgram(r *core.Rand, nProgs int, sinkProgs map[int]bool) *program {
+	p := &program{sinkFor: sinkProgs}
+	nUnits := r.Range(3, 7)
+	// every exit kind appears somewhere across the scenarios; the first units
+	// of a program cycle through the kinds starting at a random offset
+	off := r.Intn(len(exitKinds))
+	for i := 0; i < nUnits; i++ {
+		p.units = append(p.units, genUnit(r, exitKinds[(off+i)%len(exitKinds)]))
+	}
+	e := &emitter{}
+	e.line("c1 := 0")
+	e.line("c2 := 0")
+	e.line("c3 := 0")
+	for i, u := range p.units {
+		if u.h != nil {
+			emitHelper(e, fmt.Sprintf("h%d", i), u.h, u.noisy)
+		}
+		e.line("func u%d() {", i)
+		e.indent++
+		emitUnitBody(e, u, fmt.Sprintf("h%d", i))
+		e.line("return 0")
+		e.indent--
+		e.line("}")
+	}
+	for t := 0; t < nProgs; t++ {
+		tp := &threadProg{inline: -1}
+		n := r.Range(1, 4)
+		var esc []int
+		for i := 0; i < n; i++ {
+			k := r.Intn(nUnits)
+			if p.units[k].kind == "escape" {
+				esc = append(esc, k) // an escaping error ends the thread: such units go last
+				continue
+			}
+			tp.calls = append(tp.calls, k)
+		}
+		if len(esc) > 0 {
+			tp.calls = append(tp.calls, esc[0])
+			tp.escape = true
+		}
+		var b strings.Builder
+		for _, k := range tp.calls {
+			fmt.Fprintf(&b, "u%d()\n", k)
+		}
+		tp.text = b.String()
+		if sinkProgs[t] && !tp.escape && r.Chance(1, 2) {
+			// blocks written directly in the sink body
+			for k, u := range p.units {
+				if u.kind != "return" && u.kind != "escape" {
+					tp.inline = k
+					break
+				}
+			}
+		}
+		p.progs = append(p.progs, tp)
+		if sinkProgs[t] {
+			e.line("sink s%d", t)
+			e.line("    kindmatch [ \"c12.p%d\" ],", t)
+			e.line("    priority 0")
+			e.line("{")
+			e.indent++
+			for _, k := range tp.calls {
+				e.line("u%d()", k)
+			}
+			if tp.inline >= 0 {
+				emitUnitBody(e, p.units[tp.inline], fmt.Sprintf("h%d", tp.inline))
+			}
+			e.indent--
+			e.line("}")
+		}
+	}
+	p.src = e.b.String()
+	return p
+}
+
+// ---------------------------------------------------------------- running
+
+type thread struct {
+	prog   int
+	sink   bool
+	gid    uint64 // goroutine id of a direct thread (atomic)
+	done   int32
+	err    error
+	result interface{}
+}
+
+type runner struct {
+	c       *core.Ctx
+	stream  string
+	idx     int
+	env     *c11kit.Env
+	m       *mon
+	threads []*thread
+	pre     map[uint64]bool // goroutines that existed before the scenario
+	cfg     map[string]interface{}
+}
+
+func goroutineSet() map[uint64]bool {
+	res := map[uint64]bool{}
+	for id := range sched.GoStates() {
+		res[id] = true
+	}
+	return res
+}
+
+// stuck evaluates the stuck-state predicate on one dump: every goroutine that
+// is executing interpreter code is parked in the acquisition of an ECAL mutex,
+// every unfinished thread is accounted for by such a goroutine or by a queued
+// task behind them, and no worker sits idle next to a queued task.
+func (rn *runner) stuck() (bool, string) {
+	dump := c11kit.Dump()
+	inInterp := map[uint64]bool{}
+	parkedWorkers, parked := 0, 0
+	for i := range dump {
+		g := &dump[i]
+		if rn.pre[g.ID] || !g.InInterpreter() {
+			continue
+		}
+		if !g.BlockedInEcalMutex() {
+			return false, ""
+		}
+		inInterp[g.ID] = true
+		parked++
+		if g.IsPoolWorker() {
+			parkedWorkers++
+		}
+	}
+	if parked == 0 {
+		return false, ""
+	}
+	unfinishedSinks := 0
+	for _, t := range rn.threads {
+		if atomic.LoadInt32(&t.done) == 1 {
+			continue
+		}
+		if t.sink {
+			unfinishedSinks++
+			continue
+		}
+		if !inInterp[atomic.LoadUint64(&t.gid)] {
+			return false, ""
+		}
+	}
+	st := rn.env.Erp.Processor.ThreadPool().State()
+	queued, _ := st["TaskQueueSize"].(int)
+	idle, _ := st["IdleWorkerThreads"].([]uint64)
+	if unfinishedSinks != parkedWorkers+queued {
+		return false, ""
+	}
+	if queued > 0 && len(idle) > 0 {
+		return false, ""
+	}
+	return true, fmt.Sprintf("%d goroutines parked in mutexRuntime.Eval -> sync.Mutex.Lock, no goroutine running interpreter code, %d tasks queued behind them", parked, queued)
+}
+
+// classify names the stuck state from the occupancy table.
+func (rn *runner) classify() (string, string) {
+	m := rn.m
+	m.mu.Lock()
+	defer m.mu.Unlock()
+	var tids []uint64
+	for t := range m.attempting {
+		tids = append(tids, t)
+	}
+	sort.Slice(tids, func(i, j int) bool { return tids[i] < tids[j] })
+	for _, t := range tids {
+		n := m.attempting[t]
+		if ns := m.names[n]; ns.depth > 0 && ns.owner == t {
+			return "stuck:reentrant-acquire-blocked", fmt.Sprintf("thread %d is inside `mutex %s` (depth %d) and is parked acquiring %s again", t, n, ns.depth, n)
+		}
+	}
+	for _, t := range tids {
+		n := m.attempting[t]
+		if ns := m.names[n]; ns.depth == 0 {
+			kind := ns.lastExit
+			if ns.abrupt != "" {
+				kind = ns.abrupt // an abrupt exit before later (re-entrant, lock-free) visits is the suspect
+			}
+			return "stuck:not-released-after:" + kind, fmt.Sprintf("thread %d is parked acquiring `mutex %s`; nobody is inside %s; last complete exit from %s: %s, last abrupt one: %q", t, n, n, n, ns.lastExit, ns.abrupt)
+		}
+	}
+	return "stuck:unclassified", fmt.Sprintf("waiting threads and names: %v", m.attempting)
+}
+
+// wait polls for completion or a stuck state. Returns "done", "stuck" or "timeout".
+func (rn *runner) wait(done chan struct{}, bound time.Duration) (string, string) {
+	end := time.Now().Add(bound)
+	var lastProgress int64 = -1
+	confirmations := 0
+	tick := time.NewTicker(5 * time.Millisecond)
+	defer tick.Stop()
+	for {
+		select {
+		case <-done:
+			return "done", ""
+		case <-tick.C:
+		}
+		p := atomic.LoadInt64(&rn.m.progress)
+		if p != lastProgress {
+			lastProgress = p
+			confirmations = 0
+			continue
+		}
+		if ok, why := rn.stuck(); ok {
+			confirmations++
+			if confirmations >= 3 {
+				return "stuck", why
+			}
+		} else {
+			confirmations = 0
+		}
+		if time.Now().After(end) {
+			return "timeout", ""
+		}
+	}
+}
+
+func (rn *runner) run(p *program, startDelay func(i int)) (outcome string) {
+	c, m := rn.c, rn.m
+	start := make(chan struct{})
+	var wg sync.WaitGroup
+	// the direct threads' programs are parsed here, one after the other: parsing
+	// concurrently is C13's subject, not this property's
+	asts := make([]*parser.ASTNode, len(rn.threads))
+	for i, t := range rn.threads {
+		if !t.sink {
+			ast, err := rn.env.Compile(fmt.Sprintf("thread%d", i), p.progs[t.prog].text)
+			if err != nil {
+				t.err = fmt.Errorf("compile: %v", err)
+			}
+			asts[i] = ast
+		}
+	}
+	for i, t := range rn.threads {
+		wg.Add(1)
+		go func(i int, t *thread) {
+			defer wg.Done()
+			defer atomic.StoreInt32(&t.done, 1)
+			atomic.StoreUint64(&t.gid, sched.GoID())
+			<-start
+			if startDelay != nil {
+				startDelay(i)
+			}
+			if t.sink {
+				ev := engine.NewEvent(fmt.Sprintf("ev-p%d", t.prog), []string{"c12", fmt.Sprintf("p%d", t.prog)}, map[interface{}]interface{}{"n": float64(i)})
+				rm := rn.env.Erp.Processor.NewRootMonitor(nil, nil)
+				mon, err := rn.env.Erp.Processor.AddEventAndWait(ev, rm)
+				if mon == nil || err != nil {
+					t.err = fmt.Errorf("event not accepted: %v", err)
+					return
+				}
+				for _, te := range rm.AllErrors() {
+					for _, e := range te.ErrorMap {
+						t.err = e
+					}
+				}
+				return
+			}
+			ast := asts[i]
+			if ast == nil {
+				return
+			}
+			tvs := scope.NewScopeWithParent(fmt.Sprintf("thread%d", i), rn.env.VS)
+			t.result, t.err = ast.Runtime.Eval(tvs, make(map[string]interface{}), rn.env.Erp.NewThreadID())
+		}(i, t)
+	}
+	done := make(chan struct{})
+	go func() { wg.Wait(); close(done) }()
+	kick := c11kit.StartKicker(rn.env.Erp.Processor)
+	close(start)
+	outcome, why := rn.wait(done, time.Duration(c.Pick(20, 60))*time.Second)
+	c.Event("pool.kicks", kick.Stop())
+	switch outcome {
+	case "stuck":
+		key, text := rn.classify()
+		c.Violation(key, text+" ("+why+")", rn.stream, rn.idx, map[string]interface{}{"scenario": rn.cfg, "program": p.src, "threads": rn.describe(p)})
+	case "timeout":
+		c.Inconclusive("threads neither finished nor reached a stuck state within the polling bound", rn.stream, rn.idx, rn.cfg)
+	}
+	_ = m
+	return outcome
+}
+
+func (rn *runner) describe(p *program) []string {
+	var res []string
+	for i, t := range rn.threads {
+		kind := "direct Eval"
+		if t.sink {
+			kind = "sink"
+		}
+		res = append(res, fmt.Sprintf("thread %d (%s): %s", i, kind, strings.ReplaceAll(strings.TrimSpace(p.progs[t.prog].text), "\n", "; ")))
+	}
+	return res
+}
+
+// judgeEnd compares the final counters with the marker trace and reports what
+// the occupancy monitor flagged.
+func (rn *runner) judgeEnd(p *program, finished bool) {
+	c, m := rn.c, rn.m
+	detail := func() map[string]interface{} {
+		return map[string]interface{}{"scenario": rn.cfg, "program": p.src, "threads": rn.describe(p)}
+	}
+	m.mu.Lock()
+	defer m.mu.Unlock()
+	if finished {
+		for _, n := range allNames {
+			cn := counterOf(n)
+			v, _, _ := rn.env.VS.GetValue(cn)
+			f, _ := v.(float64)
+			if int64(f) != m.counters[cn] && !m.seenKey["counter:lost-update"] {
+				m.flag("counter:lost-update", fmt.Sprintf("%s ends at %v although %d increments were executed inside `mutex %s`", cn, v, m.counters[cn], n))
+			}
+			if ns := m.names[n]; ns.depth != 0 && !ns.tainted {
+				m.flag("monitor:inside-at-end", fmt.Sprintf("all threads finished but the table still has thread %d inside %s (depth %d)", ns.owner, n, ns.depth))
+			}
+		}
+		for i, t := range rn.threads {
+			tp := p.progs[t.prog]
+			if t.err == nil {
+				continue
+			}
+			typ := ""
+			switch e := t.err.(type) {
+			case *util.RuntimeErrorWithDetail:
+				if e.Type != nil {
+					typ = e.Type.Error()
+				}
+			case *util.RuntimeError:
+				if e.Type != nil {
+					typ = e.Type.Error()
+				}
+			}
+			if !(tp.escape && typ == "C12X") {
+				c.Inconclusive(fmt.Sprintf("thread %d ended with an error the program does not raise: %v", i, t.err), rn.stream, rn.idx, detail())
+			}
+		}
+	}
+	for _, f := range m.findings {
+		c.Violation(f.key, f.text, rn.stream, rn.idx, detail())
+	}
+	for k, v := range m.stats {
+		c.Event(k, v)
+	}
+	for k := range m.overlap {
+		c.Event("overlap.pair."+k, 1)
+	}
+}
+
+// randomScenario: generated program, 2..16 threads.
+func randomScenario(c *core.Ctx, stream string, idx int) {
+	r := c.Rng(stream, idx)
+	workers := r.Range(2, 8)
+	nThreads := r.Range(2, 16)
+	nProgs := r.Range(1, 4)
+	var threads []*thread
+	sinkProgs := map[int]bool{}
+	nSink := 0
+	for i := 0; i < nThreads; i++ {
+		t := &thread{prog: r.Intn(nProgs), sink: r.Bool()}
+		if i == 0 {
+			t.sink = true
+		}
+		if i == 1 {
+			t.sink = false
+		}
+		if t.sink {
+			sinkProgs[t.prog] = true
+			nSink++
+		}
+		threads = append(threads, t)
+	}
+	p := genProgram(r, nProgs, sinkProgs)
+	cfg := map[string]interface{}{"workers": workers, "threads": nThreads, "sink_threads": nSink, "thread_programs": nProgs, "units": len(p.units)}
+	c.Begin(0, stream, idx, p.src)
+	defer c.End(0)
+	m := newMon(r.U64())
+	pre := goroutineSet()
+	env, err := c11kit.NewEnv("c12", p.src, workers, false)
+	if err != nil {
+		c.Inconclusive("generated program did not load: "+err.Error(), stream, idx, map[string]interface{}{"program": p.src})
+		return
+	}
+	defer env.Close()
+	cur.Store(m)
+	env.Start()
+	rn := &runner{c: c, stream: stream, idx: idx, env: env, m: m, threads: threads, pre: pre, cfg: cfg}
+	jitter := r.U64()
+	outcome := rn.run(p, func(i int) {
+		if x := mix(jitter ^ uint64(i)); x%3 == 0 {
+			time.Sleep(time.Duration(x>>8%300) * time.Microsecond)
+		}
+	})
+	finished := outcome == "done"
+	if finished {
+		env.Finish()
+	}
+	rn.judgeEnd(p, finished)
+	// evidence
+	var kinds []string
+	for _, u := range p.units {
+		kinds = append(kinds, fmt.Sprintf("%s@%d/%d:%s", u.kind, u.exitLevel, u.catchLevel, strings.Join(u.names, ">")))
+	}
+	m.mu.Lock()
+	contended := m.stats["attempt.contended(name held by another thread)"]
+	enters := m.stats["enter"]
+	m.mu.Unlock()
+	c.Event("scenario."+stream, 1)
+	c.Event("threads.run", int64(nThreads))
+	c.AddEvals(nThreads)
+	if contended > 0 {
+		c.Nontrivial(core.Hash64("rand|" + p.src + fmt.Sprint(cfg)))
+	}
+	if idx < 2 {
+		c.Sample(stream, map[string]interface{}{"scenario": cfg, "units(kind@exitLevel/catchLevel:names)": kinds, "threads": rn.describe(p),
+			"enters": enters, "contended_attempts": contended, "program_head": head(p.src, 1200)})
+	}
+}
+
+func head(s string, n int) string {
+	if len(s) > n {
+		return s[:n] + "..."
+	}
+	return s
+}
+
+// exitScenario is the directed form of "released on every way out": thread A
+// leaves a block of `name` by one exit kind from a given nesting level while
+// thread B waits (v.await) until A was inside and then enters the same name.
+func exitScenario(c *core.Ctx, stream string, idx int) {
+	r := c.Rng(stream, idx)
+	kinds := []string{"raise", "escape", "return", "break", "continue", "normal"}
+	kind := kinds[idx%len(kinds)]
+	depth := idx/len(kinds)%3 + 1
+	u := &unit{kind: kind, iters: 2, at: 1, noisy: false}
+	first := allNames[r.Intn(len(allNames)-depth+1)]
+	for i := 0; i < depth; i++ {
+		if r.Chance(1, 3) && i > 0 {
+			u.names = append(u.names, u.names[i-1]) // re-entrant level
+		} else if i == 0 {
+			u.names = append(u.names, first)
+		} else {
+			u.names = append(u.names, pickName(r, u.names))
+		}
+	}
+	u.exitLevel = depth
+	u.catchLevel = r.Range(1, depth)
+	if kind == "return" || kind == "escape" {
+		u.catchLevel = 1
+		u.iters = 1
+	}
+	aSink, bSink := r.Bool(), r.Bool()
+	e := &emitter{}
+	e.line("c1 := 0")
+	e.line("c2 := 0")
+	e.line("c3 := 0")
+	e.line("func u0() {")
+	e.indent++
+	emitUnitBody(e, u, "h0")
+	e.line("return 0")
+	e.indent--
+	e.line("}")
+	// B enters every name A used, innermost name first is not allowed by the
+	// global order, so one block per name in rank order, not nested
+	seen := map[string]bool{}
+	var bNames []string
+	for _, n := range u.names {
+		if !seen[n] {
+			seen[n] = true
+			bNames = append(bNames, n)
+		}
+	}
+	sort.Strings(bNames)
+	e.line("func b0() {")
+	e.indent++
+	e.line("v.await(%q)", u.names[len(u.names)-1])
+	for _, n := range bNames {
+		e.open(n)
+		e.inc(n, false)
+		e.close(n)
+	}
+	e.line("return 0")
+	e.indent--
+	e.line("}")
+	progs := []*threadProg{{calls: []int{0}, inline: -1, text: "u0()\n", escape: kind == "escape"}, {inline: -1, text: "b0()\n"}}
+	for t, isSink := range []bool{aSink, bSink} {
+		if isSink {
+			e.line("sink s%d", t)
+			e.line("    kindmatch [ \"c12.p%d\" ],", t)
+			e.line("    priority 0")
+			e.line("{")
+			e.line("    %s", strings.TrimSpace(progs[t].text))
+			e.line("}")
+		}
+	}
+	p := &program{units: []*unit{u}, progs: progs, src: e.b.String()}
+	cfg := map[string]interface{}{"exit_kind": kind, "depth": depth, "names": strings.Join(u.names, ">"), "catch_level": u.catchLevel,
+		"a_is_sink": aSink, "b_is_sink": bSink}
+	c.Begin(0, stream, idx, p.src)
+	defer c.End(0)
+	m := newMon(r.U64())
+	pre := goroutineSet()
+	env, err := c11kit.NewEnv("c12", p.src, 2, false)
+	if err != nil {
+		c.Inconclusive("generated program did not load: "+err.Error(), stream, idx, map[string]interface{}{"program": p.src})
+		return
+	}
+	defer env.Close()
+	cur.Store(m)
+	env.Start()
+	rn := &runner{c: c, stream: stream, idx: idx, env: env, m: m, pre: pre, cfg: cfg,
+		threads: []*thread{{prog: 0, sink: aSink}, {prog: 1, sink: bSink}}}
+	outcome := rn.run(p, nil)
+	if outcome == "done" {
+		env.Finish()
+	}
+	rn.judgeEnd(p, outcome == "done")
+	bEntered := rn.threads[1].err == nil
+	c.Event("scenario."+stream, 1)
+	c.Event("threads.run", 2)
+	if outcome == "done" && bEntered {
+		c.NontrivialKey(fmt.Sprintf("exit|%s|%d|%d|%s", kind, depth, u.catchLevel, strings.Join(u.names, ">")))
+		c.Event("exit.later-entrant-got-in."+kind, 1)
+	}
+	if idx%17 == 0 {
+		c.Sample(stream, map[string]interface{}{"scenario": cfg, "program": p.src})
+	}
+}
+
+// indepScenario: A holds n1 and spins until B was seen inside n2.
+func indepScenario(c *core.Ctx, stream string, idx int) {
+	r := c.Rng(stream, idx)
+	pairs := [][2]string{{"m1", "m2"}, {"m1", "m3"}, {"m2", "m3"}, {"m2", "m1"}, {"m3", "m1"}, {"m3", "m2"}}
+	pr := pairs[idx%len(pairs)]
+	aSink, bSink := idx/len(pairs)%2 == 1, idx/len(pairs)/2%2 == 1
+	e := &emitter{}
+	e.line("func a0() {")
+	e.indent++
+	e.open(pr[0])
+	e.line("seen := v.hold(%q, %q)", pr[0], pr[1])
+	e.close(pr[0])
+	e.line("return 0")
+	e.indent--
+	e.line("}")
+	e.line("func b0() {")
+	e.indent++
+	e.line("v.await(%q)", pr[0])
+	e.open(pr[1])
+	e.line("x := 1")
+	e.close(pr[1])
+	e.line("return 0")
+	e.indent--
+	e.line("}")
+	progs := []*threadProg{{inline: -1, text: "a0()\n"}, {inline: -1, text: "b0()\n"}}
+	for t, isSink := range []bool{aSink, bSink} {
+		if isSink {
+			e.line("sink s%d", t)
+			e.line("    kindmatch [ \"c12.p%d\" ],", t)
+			e.line("    priority 0")
+			e.line("{")
+			e.line("    %s", strings.TrimSpace(progs[t].text))
+			e.line("}")
+		}
+	}
+	p := &program{progs: progs, src: e.b.String()}
+	cfg := map[string]interface{}{"a_holds": pr[0], "b_enters": pr[1], "a_is_sink": aSink, "b_is_sink": bSink}
+	c.Begin(0, stream, idx, p.src)
+	defer c.End(0)
+	m := newMon(r.U64())
+	pre := goroutineSet()
+	env, err := c11kit.NewEnv("c12", p.src, 2, false)
+	if err != nil {
+		c.Inconclusive("program did not load: "+err.Error(), stream, idx, map[string]interface{}{"program": p.src})
+		return
+	}
+	defer env.Close()
+	cur.Store(m)
+	env.Start()
+	rn := &runner{c: c, stream: stream, idx: idx, env: env, m: m, pre: pre, cfg: cfg,
+		threads: []*thread{{prog: 0, sink: aSink}, {prog: 1, sink: bSink}}}
+	outcome := rn.run(p, nil)
+	if outcome == "done" {
+		env.Finish()
+	}
+	rn.judgeEnd(p, outcome == "done")
+	a, b := pr[0], pr[1]
+	if a > b {
+		a, b = b, a
+	}
+	m.mu.Lock()
+	seen := m.overlap[a+"|"+b]
+	undecided := m.stats["independence.undecided"] > 0
+	m.mu.Unlock()
+	c.Event("scenario."+stream, 1)
+	c.Event("threads.run", 2)
+	if seen {
+		c.Event("independence.overlap-observed", 1)
+		c.NontrivialKey(fmt.Sprintf("indep|%s|%s|%v|%v", pr[0], pr[1], aSink, bSink))
+	} else if undecided {
+		c.Inconclusive("no overlap of the two names was observed and no blocked entrant either", stream, idx, cfg)
+	}
+	if idx%13 == 0 {
+		c.Sample(stream, map[string]interface{}{"scenario": cfg, "overlap_observed": seen, "program": p.src})
+	}
+}
+
 // Run is the check.
 func Run(c *core.Ctx) {
+	c.Note("rule", "random stream: per index a generated program (3..7 units = nests of 1..3 `mutex` blocks over names {m1,m2,m3}; a new name is always ranked above every name held, a held name may be re-entered; one exit kind per unit out of {normal, raise caught outside the blocks left, raise escaping the thread, return, break, continue}, fired at a chosen iteration from nesting level exitLevel through to the handler placed outside level catchLevel; optional helper function called inside a block that enters held or higher names and leaves by normal/return/raise; counters c1..c3 incremented only inside blocks of their name, half of them as `c := c + v.one()` with a yielding Go function) run by 2..16 threads = sinks on 2..8 workers (event per thread, some with the blocks inline in the sink body) plus direct Eval goroutines with ids from NewThreadID(); exit stream: all 6 exit kinds x depth 1..3, thread B enters every name thread A left; indep stream: all ordered pairs of different names x sink/direct threads, A holds one name until B was seen inside the other. One evaluation = one thread program executed. Non-trivial = a random scenario (distinct program text and thread layout) in which the monitor saw at least one attempt on a name held by another thread; a distinct (exit kind, depth, catch level, names) case in which the later entrant got in; an independence case with the overlap observed. Excluded by generation: thread id 0, programs that can deadlock by themselves (names are taken in one global order), try/except between a break/continue/return and the construct that consumes it, block scopes shared between direct threads (every direct thread evaluates in its own child scope of the global scope).")
+	setup()
+	nExit := c.Pick(72, 1440)
+	nIndep := c.Pick(24, 240)
+	nRand := c.Pick(960, 48000)
+	if c.Race {
+		nExit = c.Pick(36, 360)
+		nIndep = c.Pick(12, 48)
+		nRand = c.Pick(128, 6400)
+	}
+	for i := 0; i < nExit; i++ {
+		if c.Mine("exit", i) {
+			exitScenario(c, "exit", i)
+			c.AddEvals(2)
+		}
+	}
+	for i := 0; i < nIndep; i++ {
+		if c.Mine("indep", i) {
+			indepScenario(c, "indep", i)
+			c.AddEvals(2)
+		}
+	}
+	for i := 0; i < nRand; i++ {
+		if c.Mine("rand", i) {
+			randomScenario(c, "rand", i)
+		}
+	}
 }
